@@ -16,6 +16,9 @@ Trusted / data, not proved here
   * the Legendre factor `P b i` (`o3.Legendre`, sympy-generated) and the Wigner matrices `D` are DATA,
   * `KRExact` (exactness of the beta quadrature on products of Legendre factors up to the band limit) is a
     HYPOTHESIS of the round-trip theorems (`…_partial`), checked numerically per configuration by the harness.
+    Section 5b proves its quadrature half for ALL resolutions (`quadrature_exact`), reduces the rest to a
+    statement about the Legendre data alone (`krExact_of_legendre_data`), and proves `KRExact` itself — hence
+    the round trip without any hypothesis — for band limits `lmax ≤ 1` (`fromS2Grid_toS2Grid_lmax_le_1`).
 -/
 namespace E3nnVerif.Props.C11
 open E3nnVerif E3nnVerif.S2Grid Finset
